@@ -86,6 +86,20 @@ class Agg:
         return self.rep.rule(*a, **kw)
 
 
+NOLINK_FLAGS = ('opt_c', 'opt_S', 'opt_E', 'opt_M')     # modes of the driver that end before the link step
+
+
+def _flag_on_path(ctx, name):
+    """True / False when the path has decided the option flag, None when it never looked at it (or it is not concrete)"""
+    v = ctx.globals.get(name)
+    if isinstance(v, View):
+        vals = set(bool(v.proj(c)) for c in v.cell.cands)
+        return vals.pop() if len(vals) == 1 else None
+    if isinstance(v, (int, bool)):
+        return bool(v)
+    return None
+
+
 def _fmt_path(ctx, n=10):
     return ctx.trail[-n:]
 
@@ -119,7 +133,10 @@ def run(P, rep, tier):
                        '(exit code or signal) stops the driver with a non-zero status, the user-visible output is opened only after every phase that can '
                        'fail has returned, the per-input pipeline order; for a fixed set of concrete command lines (each mode, with/without -o, multi-dot input names) '
                        'the file names handed to the stages and opened in cc1 are exactly the requested outputs and every inter-stage file is a mkstemp name (R14.8); '
-                       'a failed open of an input is fatal or reported upwards at every level of the call chain (R14.9). '
+                       'the same for concrete command lines interpreted through the real option parser (mode x language of the input chosen by suffix or -x x objects/libraries): files written and stages started are those the command line asks for; '
+                       'a failed open of an input is fatal or reported upwards at every level of the call chain (R14.9); the front end (cc1 and its phases) is reachable only from what main calls in the cc1 role, never from '
+                       'what it calls in the driver role, so a crash of the front end cannot take the process that owns the temporaries with it (R14.10); functions explored on their own '
+                       '(temp creator, launchers, stage functions) are decided for every state of the option lists, not only the empty one. '
                        'Does not decide behaviour under real kill points or real concurrent schedules; '
                        'temp-name uniqueness is decided only as "names come from mkstemp".')
     rep.assumptions += ['wait status encoding of Linux/glibc (low 7 bits signal, bit 7 core, bits 8-15 exit code)',
@@ -133,6 +150,10 @@ def run(P, rep, tier):
                         'R14.8: the state after option parsing is described by the option globals of main.c (opt_c, opt_S, opt_E, opt_M, opt_MD, opt_MF, opt_o, input_paths, base_file, output_file), all other statics are zero; '
                         'requested names follow the cc convention: <base name of the input with its last suffix replaced> in the current directory, a.out for a link, the -o operand verbatim; '
                         'libc string functions (strdup, strchr, strrchr, basename, dirname, strcmp, strncmp, strlen, strstr, strcpy, strcat, strndup) and format() behave as specified by ISO C / POSIX',
+                        'R14.8 command lines: -E and -M write no file from the driver and start nothing but cc1; an assembler input is never compiled and a C input always is; objects, libraries and -l operands take part in a link only; '
+                        'with -M an assembler input may be preprocessed or left alone',
+                        'R14.10: the role of a process is decided by opt_cc1; the front end is cc1 and the phase functions tokenize_file / preprocess / parse / codegen; reachability is over the resolved call graph '
+                        '(a call guarded by a condition that is false in the driver role still counts)',
                         'R14.9: fopen with a literal read mode is the only way an input is opened; a failure is reported by a constant return value']
     cg = L.CallGraph(P)
     reach_main = cg.reach('main')
@@ -948,8 +969,11 @@ def r146(P, u, rep, cg, facts):
             collected = [e for e in evs if e[1] == 'strarray_push' and isinstance(e[2][0], Obj) and not _root_global(e[2][0])]
             if collected:
                 linked = [e for e in evs if e[1] == 'run_linker' and e[2] and e[2][0] is collected[0][2][0]]
-                rep.ob('R14.6', '%s:main:%s' % (U, 'collected-objects-are-linked' if linked else 'collected-objects-not-linked'), bool(linked),
-                       'main returns 0 with objects collected for linking but without running the linker', where=w, facts={'path': _fmt_path(ctx)})
+                # a path on which a mode that does not link (-c / -S / -E / -M) is certainly selected asks for no linked output
+                nolink = [f for f in NOLINK_FLAGS if _flag_on_path(ctx, f) is True]
+                if linked or not nolink:
+                    rep.ob('R14.6', '%s:main:%s' % (U, 'collected-objects-are-linked' if linked else 'collected-objects-not-linked'), bool(linked),
+                           'main returns 0 with objects collected for linking but without running the linker', where=w, facts={'path': _fmt_path(ctx)})
     if n_asm_tmp == 0:
         rep.undecided('R14.6', '%s:main:no-assemble-of-temporary' % U, 'no path assembles a create_tmpfile name')
     if n_link == 0:
@@ -1243,8 +1267,9 @@ _CMDLINES = [
     ('E-xc', ['-E', '-xc'], [_A1], [], ['cc1']),
     ('E+o-x-asm', ['-E', '-o', _OUT, '-x', 'assembler'], [_A1], [], ['cc1']),
     ('M-c', ['-M'], [_C1], [], ['cc1']),
-    ('M-asm-suffix', ['-M'], [_A1], [], None),
-    ('M-x-asm', ['-M', '-x', 'assembler'], [_C1], [], None),
+    ('E-mixed', ['-E'], [_C1, _A1], [], ['cc1', 'cc1']),
+    ('M-asm-suffix', ['-M'], [_A1], [], (['cc1'], [])),         # preprocessed like -E, or left alone as other drivers do
+    ('M-x-asm', ['-M', '-x', 'assembler'], [_C1], [], (['cc1'], [])),
     ('S-asm-suffix', ['-S'], [_A1], [], []),
     ('S-x-asm', ['-S', '-x', 'assembler'], [_C1], [], []),
     ('S-xc', ['-S', '-xc'], [_A1], [_stem(_A1) + '.s'], ['cc1']),
@@ -1256,6 +1281,7 @@ _CMDLINES = [
     ('link-x-none', ['-x', 'assembler', '-x', 'none'], [_C1, _A1], ['a.out'], ['cc1', 'as', 'as', 'ld']),
     ('link-obj', [], [_C1, _O1], ['a.out'], ['cc1', 'as', 'ld']),
     ('link+o-obj', ['-o', _OUT], [_O1], [_OUT], ['ld']),
+    ('link-ar-dso-lib', [], [_C1, 'lib.d/libz.v1.a', 'lib.d/libq.v2.so', '-lm'], ['a.out'], ['cc1', 'as', 'ld']),
     ('c-obj', ['-c'], [_C1, _O1], [_stem(_C1) + '.o'], ['cc1', 'as']),
     ('S-obj', ['-S'], [_C1, _O1], [_stem(_C1) + '.s'], ['cc1']),
 ]
@@ -1293,10 +1319,11 @@ def _r148_cmdlines(P, u, rep, cg, pure, models):
                 continue
             got = _check_pipeline_names(rep, key0, '`%s`' % shown, ctx, ins, expect, w)
             if want_stages is not None:
-                ok = got == want_stages
+                alts = list(want_stages) if isinstance(want_stages, tuple) else [want_stages]
+                ok = got in alts
                 rep.ob('R14.8', key0 + (':expected-stages' if ok else ':runs-%s' % ('+'.join(got) or 'no-stage')), ok,
                        '`%s` runs the stages [%s]; the command line asks for [%s]: an input is handled as the wrong kind of file for this mode (compiled instead of assembled or the reverse, '
-                       'assembled/linked although only preprocessing was requested, or skipped)' % (shown, ', '.join(got) or 'none', ', '.join(want_stages) or 'none'), where=w)
+                       'assembled/linked although only preprocessing was requested, or skipped)' % (shown, ', '.join(got) or 'none', '] or ['.join(', '.join(a) or 'none' for a in alts)), where=w)
         if nret == 0:
             rep.undecided('R14.8', key0 + ':no-success-path', 'no path of main returns for `%s`' % shown)
 
